@@ -490,7 +490,9 @@ class Episode:
     def simulate(self, plan):
         """plan = list of dicts(name, analyses=[(kidx, options, text_to_write_before|None, expected)],
         fault, start_after).  Returns records."""
-        sim = Sim(self.ch, max_steps=400000)
+        # nothing in a model load has reason to wait: a process that sleeps its way through 300 simulated
+        # seconds, or is still busy after 400 000 scheduler steps (a cold run takes a few thousand), hangs
+        sim = Sim(self.ch, max_steps=400000, max_now=300.0)
         sim.sticky = self.spec.get("sticky", 1)
         fs = fsmod.SimFS(sim, self.m.root)
         fs.readonly = set(self.readonly)
@@ -555,7 +557,17 @@ class Episode:
         self.log_tail = [repr(e) for e in sim.log[-30:]]
         self.agg.digests.add(sim.schedule_digest()[:16])
         if sim.abort_reason in ("max_steps", "max_now"):
-            self.inconclusive = sim.abort_reason
+            hung = [n for n, t in sorted(tasks.items())
+                    if t.exit_status == "aborted" and not (t.attrs.get("fault") or {}).get("fired")]
+            if hung:
+                waiting = sorted({(tasks[n].attrs.get("last_parked") or "") for n in hung})
+                self.viol("run_hung", "process(es) %s never finished (%s after %s; simulated time %.1f s): %s"
+                          % (", ".join(hung), "still busy" if sim.abort_reason == "max_steps" else "still sleeping",
+                             "400000 scheduler steps" if sim.abort_reason == "max_steps" else "300 simulated seconds",
+                             sim.now, "; ".join(repr(e) for e in sim.log[-3:])),
+                          {"hung": hung, "after_fault": self.faulted_before})
+            else:
+                self.inconclusive = sim.abort_reason
         if sim.deadlock:
             raise core.HarnessError("deadlock in C17 episode: %r" % (sim.log[-3:],))
         self.probe_states(sim, fs, plan)
